@@ -71,7 +71,7 @@ FAULTS = ["duct_not_smaller_than_pitch", "pins_do_not_fit", "wire_too_thick", "w
           "unequal_outer_ducts", "inverted_axial_region", "overlapping_axial_regions", "missing_boundary_condition",
           "two_boundary_conditions", "unknown_coolant", "unknown_duct_material", "unknown_correlation",
           "power_wrong_item_count", "power_axial_gap", "power_not_core_length", "power_negative", "power_not_a_number",
-          "power_component_cell_count", "odd_duct_ftf",
+          "power_component_cell_count", "power_longer_than_core", "fuel_clad_gap_too_thick", "odd_duct_ftf",
           "bypass_fraction_zero_with_flow_gap"]
 
 
@@ -170,10 +170,16 @@ def inject(spec, fault, mag, pick):
                 return None
             mode = "merge" if (len(ap["zb"]) >= 3 and eps < 0.05) else "split"
             s["_power_cells"] = (key, {"pins": 1, "duct": 2, "cool": 3}[comps[pick % len(comps)]], mode)
-        elif fault == "power_not_core_length":
+        elif fault in ("power_not_core_length", "power_longer_than_core"):
             # (the reader compares to 1e-6 m: smaller mismatches are within its stated tolerance)
             ap["zb"] = list(ap["zb"])
-            ap["zb"][-1] = ap["zb"][-1] - max(eps * 0.5 * ap["zb"][-1], 5e-6)
+            if fault == "power_longer_than_core":
+                # the profile reaches beyond the core length given in the input
+                ap["zb"][-1] = ap["zb"][-1] + max(eps * 0.5 * ap["zb"][-1], 5e-6)
+                s["_power_len"] = "longer"
+            else:
+                ap["zb"][-1] = ap["zb"][-1] - max(eps * 0.5 * ap["zb"][-1], 5e-6)
+                s["_power_len"] = "shorter"
             if ap["zb"][-1] <= ap["zb"][-2]:
                 return None
         elif fault == "power_negative":
@@ -182,6 +188,15 @@ def inject(spec, fault, mag, pick):
         elif fault == "power_not_a_number":
             cell = comp["explicit"][pick % len(comp["explicit"])]
             cell[pick % len(cell)][pick % len(cell[0])] = float("nan") if eps < 0.05 else float("inf")
+    elif fault == "fuel_clad_gap_too_thick":
+        if a.get("use_low_fidelity_model"):
+            return None
+        r_in = 0.5 * a["pin_diameter"] - a["clad_thickness"]
+        a.pop("PinModel", None)
+        a["FuelModel"] = {"clad_material": "ht9", "r_frac": [0.0], "pu_frac": [0.2], "zr_frac": [0.1], "porosity": [0.1],
+                          "gap_material": "sodium",
+                          # (the current key and the legacy key for the same quantity)
+                          ["gap_thickness", "fcgap_thickness"][pick % 2]: r_in * (1.0 + max(eps, 1e-6))}
     elif fault == "odd_duct_ftf":
         a["duct_ftf"] = list(a["duct_ftf"])[:-1] if len(a["duct_ftf"]) > 2 else list(a["duct_ftf"]) + [max(a["duct_ftf"]) * 0.999]
     elif fault == "bypass_fraction_zero_with_flow_gap":
@@ -253,6 +268,8 @@ def run_fault(spec):
         return o
     bad = inject(base, fault, mag, pick)
     o.classes["fault"] = fault
+    if bad is not None and bad.get("_power_len"):
+        o.classes["power_length"] = bad["_power_len"]
     o.classes["magnitude"] = "barely" if mag < 1e-3 else ("small" if mag < 0.05 else "gross")
     if bad is None:
         o.inconclusive = "fault_not_applicable"
